@@ -52,36 +52,113 @@ theorem kholawChildKey_priv (nd : Node) (idx : Nat) (priv : Bytes) (hi : idx < 2
     (hp : nd.priv = some priv) :
     kholawChildKey nd idx =
       (kholawCkdPriv nd priv idx >>= fun x =>
-        nodeOfPriv nd.curve nd.scheme x.1 (nd.depth + 1) idx x.2 nd.fingerprint) := by
+        if nd.depth ≥ 255 then .error .value
+        else nodeOfPriv nd.curve nd.scheme x.1 (nd.depth + 1) idx x.2 nd.fingerprint) := by
   unfold kholawChildKey
   have : ¬ idx > 2 ^ 32 - 1 := by omega
   simp only [this, if_false, hp, bind, Except.bind]
+  cases kholawCkdPriv nd priv idx with
+  | error e => rfl
+  | ok x => simp only []; split <;> rfl
 
 theorem kholawChildKey_pub (nd : Node) (idx : Nat) (hi : idx < 2 ^ 32)
     (hp : nd.priv = none) (hh : isHardened idx = false) :
     kholawChildKey nd idx =
       (kholawCkdPub nd idx >>= fun x =>
-        nodeOfPub nd.curve nd.scheme x.1 (nd.depth + 1) idx x.2 nd.fingerprint) := by
+        if nd.depth ≥ 255 then .error .value
+        else nodeOfPub nd.curve nd.scheme x.1 (nd.depth + 1) idx x.2 nd.fingerprint) := by
   unfold kholawChildKey
   have : ¬ idx > 2 ^ 32 - 1 := by omega
   simp only [this, if_false, hp, hh, bind, Except.bind]
-  cases kholawCkdPub nd idx <;> rfl
+  cases kholawCkdPub nd idx with
+  | error e => rfl
+  | ok x => simp only [Bool.false_eq_true, if_false]; split <;> rfl
 
-theorem kholawChildKey_pub_hardened (nd : Node) (idx : Nat) (hi : idx < 2 ^ 32)
+/-- below the depth limit the guard disappears (the pre-guard form of `kholawChildKey_priv`) -/
+theorem kholawChildKey_priv_of_depth_lt (nd : Node) (idx : Nat) (priv : Bytes) (hi : idx < 2 ^ 32)
+    (hp : nd.priv = some priv) (hd : nd.depth < 255) :
+    kholawChildKey nd idx =
+      (kholawCkdPriv nd priv idx >>= fun x =>
+        nodeOfPriv nd.curve nd.scheme x.1 (nd.depth + 1) idx x.2 nd.fingerprint) := by
+  rw [kholawChildKey_priv nd idx priv hi hp]
+  simp only [ge_iff_le, Nat.not_le.mpr hd, if_false]
+
+theorem kholawChildKey_pub_of_depth_lt (nd : Node) (idx : Nat) (hi : idx < 2 ^ 32)
+    (hp : nd.priv = none) (hh : isHardened idx = false) (hd : nd.depth < 255) :
+    kholawChildKey nd idx =
+      (kholawCkdPub nd idx >>= fun x =>
+        nodeOfPub nd.curve nd.scheme x.1 (nd.depth + 1) idx x.2 nd.fingerprint) := by
+  rw [kholawChildKey_pub nd idx hi hp hh]
+  simp only [ge_iff_le, Nat.not_le.mpr hd, if_false]
+
+theorem kholawChildKey_pub_hard (nd : Node) (idx : Nat) (hi : idx < 2 ^ 32)
     (hp : nd.priv = none) (hh : isHardened idx = true) :
     kholawChildKey nd idx = .error .key := by
   unfold kholawChildKey
   have : ¬ idx > 2 ^ 32 - 1 := by omega
   simp only [this, if_false, hp, hh, if_true, bind, Except.bind, throw, throwThe, MonadExceptOf.throw]
 
+theorem kholawChildKey_idx_lt (nd : Node) (idx : Nat) (c : Node) (h : kholawChildKey nd idx = .ok c) :
+    idx < 2 ^ 32 := by
+  by_contra hn
+  rw [kholawChildKey_range nd idx (by omega)] at h; cases h
+
+/-- depth limit for the BIP32-Ed25519 schemes: a successful `ChildKey` call was made on a node of
+depth `< 255`, and the child is one level deeper -/
+theorem kholawChildKey_depth (nd : Node) (idx : Nat) (c : Node) (h : kholawChildKey nd idx = .ok c) :
+    nd.depth < 255 ∧ c.depth = nd.depth + 1 := by
+  have hi := kholawChildKey_idx_lt nd idx c h
+  cases hp : nd.priv with
+  | some priv =>
+    rw [kholawChildKey_priv nd idx priv hi hp, Slip10.bind_ok_iff] at h
+    obtain ⟨x, _, hx⟩ := h
+    obtain ⟨hd, hx⟩ := (Slip10.guard_ok_iff ..).mp hx
+    obtain ⟨_, pub, _, rfl⟩ := (nodeOfPriv_ok_iff ..).mp hx
+    exact ⟨hd, rfl⟩
+  | none =>
+    cases hh : isHardened idx
+    · rw [kholawChildKey_pub nd idx hi hp hh, Slip10.bind_ok_iff] at h
+      obtain ⟨x, _, hx⟩ := h
+      obtain ⟨hd, hx⟩ := (Slip10.guard_ok_iff ..).mp hx
+      obtain ⟨pub, _, rfl⟩ := (nodeOfPub_ok_iff ..).mp hx
+      exact ⟨hd, rfl⟩
+    · rw [kholawChildKey_pub_hard nd idx hi hp hh] at h; cases h
+
+/-- the same for the scheme-generic `ChildKey` dispatch -/
+theorem childKey_depth (nd : Node) (idx : Nat) (c : Node) (h : childKey nd idx = .ok c) :
+    nd.depth < 255 ∧ c.depth = nd.depth + 1 := by
+  unfold childKey at h
+  split at h
+  · exact ⟨slip10ChildKey_depth_lt nd idx c h, (child_metadata nd idx c h).1⟩
+  · exact kholawChildKey_depth nd idx c h
+
+theorem childKey_depth_le (nd : Node) (idx : Nat) (c : Node) (h : childKey nd idx = .ok c) :
+    c.depth ≤ 255 := by
+  have := childKey_depth nd idx c h; omega
+
+/-- a node of depth 255 (or more) has no child, whatever the scheme -/
+theorem childKey_depth_limit (nd : Node) (idx : Nat) (hd : 255 ≤ nd.depth) :
+    ∃ e, childKey nd idx = .error e := by
+  cases h : childKey nd idx with
+  | error e => exact ⟨e, rfl⟩
+  | ok c => exact absurd (childKey_depth nd idx c h).1 (Nat.not_lt.mpr hd)
+
+/-- `DerivePath` (any scheme) adds the number of path elements to the depth -/
+theorem derive_depth_any (nd : Node) (p : Path) (c : Node) (h : derivePathWith childKey nd p = .ok c) :
+    c.depth = nd.depth + p.elems.length := by
+  rw [derivePathWith_eq] at h
+  split at h
+  · cases h
+  · exact foldlM_depth _ (fun nd i c hc => (childKey_depth nd i c hc).2) _ _ _ h
+
 /-- `public_hardened_refused` for every scheme (`ChildKey` dispatch) -/
 theorem childKey_public_hardened_refused (nd : Node) (idx : Nat) (hp : nd.priv = none)
     (hh : isHardened idx = true) (hi : idx < 2 ^ 32) : childKey nd idx = .error .key := by
   unfold childKey
   cases nd.scheme
-  · exact slip10ChildKey_pub_hardened nd idx hi hp hh
-  · exact kholawChildKey_pub_hardened nd idx hi hp hh
-  · exact kholawChildKey_pub_hardened nd idx hi hp hh
+  · exact slip10ChildKey_pub_hard nd idx hi hp hh
+  · exact kholawChildKey_pub_hard nd idx hi hp hh
+  · exact kholawChildKey_pub_hard nd idx hi hp hh
 
 theorem childKey_index_range (nd : Node) (idx : Nat) (h : 2 ^ 32 ≤ idx) :
     childKey nd idx = .error .value := by
@@ -258,6 +335,9 @@ theorem kholaw_ckdPub_comm (law : KholawLaw) (nd : Node) (k : Bytes) (idx : Nat)
               rw [hcur]; exact pubFromBytes_kholaw_enc law _ hrange hne), rfl⟩
     have h2 := (nodeOfPriv_ok_iff nd.curve nd.scheme (kl ++ kr) (nd.depth + 1) idx (kholawCC nd idx)
       nd.fingerprint _).mpr ⟨hvalid, _, (by rw [hcur]; exact hpriv), rfl⟩
+    show (if nd.depth ≥ 255 then _ else _) = Except.map Node.neuter (if nd.depth ≥ 255 then _ else _)
+    split
+    · rfl
     show nodeOfPub nd.neuter.curve nd.neuter.scheme _ (nd.neuter.depth + 1) idx (kholawCC nd idx) _ =
       Except.map Node.neuter (nodeOfPriv nd.curve nd.scheme (kl ++ kr) (nd.depth + 1) idx (kholawCC nd idx) _)
     rw [h1, h2]
